@@ -32,10 +32,11 @@ def sweep(ctx):
                (base, ["go/types", "net/http", "encoding/json", "text/template", "regexp"], FLAGS if ctx.tier == "thorough" else FLAGS[1:4]),
                (common.REPO, ["./..."] if ctx.tier == "thorough" else ["./inference/...", "./diagnostic/...", "./annotation/...", "./config/..."], FLAGS[:4] if ctx.tier == "thorough" else FLAGS[:1])]
     for sub in ("c10", "c15", "det/m3", "det/m9", "det/m5", "c03/m11", "c07/shapes", "c02", "c08", "c20"):
-        targets.append((os.path.join(common.VERIF, "corpus", sub), ["./..."], FLAGS[:4] if ctx.tier == "thorough" else FLAGS[:2]))
+        # the crash regressions (c07/shapes) need their flag: all four configurations in both tiers
+        targets.append((os.path.join(common.VERIF, "corpus", sub), ["./..."], FLAGS[:4] if ctx.tier == "thorough" or sub == "c07/shapes" else FLAGS[:2]))
     for d, pats, flagsets in targets:
         for flags in flagsets:
-            r, err = wt.analyze(d, flags=flags, patterns=pats, timeout=1800)
+            r, err = wt.analyze(d, flags=flags, patterns=pats, timeout=1800 if d in (base, common.REPO) else 300)
             runs += 1
             if r is None:
                 bad.append("%s %r flags %r: the driver did not finish: %s" % (d, pats, flags, err))
